@@ -410,6 +410,17 @@ class ExprGen:
                 self.counter += 1
                 e["alias"] = "top%d" % self.counter
             seen.add(e["alias"] or e["gql"])
+        # the same argument-less root field may be selected twice without an alias (legal: the selections merge)
+        if ch.chance("o.repeat_root", 1, 8):
+            plain = [e for e in fields if not e["args"] and not e["alias"] and e["how"] != "uattr" and not self._holds_uattr(e)]
+            if plain:
+                import copy as _copy
+                twin = _copy.deepcopy(plain[ch.draw("o.repeat_which", len(plain))])
+                for y in [twin] + self._descendants(twin):
+                    for k_ in ("nid", "sid", "reuse_nid", "ext_id"):
+                        y.pop(k_, None)
+                if all(not y["args"] for y in self._descendants(twin)):      # (sub-selections with arguments would have to agree)
+                    fields.append(twin)
         return {"kind": kind, "name": ch.pick("o.name", ["MyOp", "op_%d" % i, "Q"]), "fields": fields}
 
 
